@@ -191,6 +191,15 @@ func ticker(d, jitter time.Duration, n int, other string, d2, j2 time.Duration, 
 	}}
 }
 
+// extreme: the largest arguments the documentation allows (d > 0, 0 <= jitter < d).
+func extreme() Scenario {
+	return Scenario{"ticker-extreme/d=MaxInt64/jitter=2^62+1", 0, func() {
+		t := xtime.NewJitterTicker(time.Duration(1<<63-1), time.Duration(1<<62+1))
+		t.Stop()
+		hx.Outcome("ok")
+	}}
+}
+
 func All() []Scenario {
 	var out []Scenario
 	for mode := 0; mode < 2; mode++ {
@@ -202,6 +211,11 @@ func All() []Scenario {
 			sleepCtx(10*ms, "deadline", 10*ms, mode),
 			sleepCtx(10*ms, "deadline", 5*ms, mode),
 			sleepCtx(1*ms, "deadline", 100*ms, mode),
+			// deadlines a hair inside / outside d
+			sleepCtx(10*ms, "deadline", 10*ms-1, mode),
+			sleepCtx(10*ms, "deadline", 10*ms-400*time.Microsecond, mode),
+			sleepCtx(10*ms, "deadline", 10*ms+1, mode),
+			sleepCtx(-1*ms, "cancelled", 0, mode),
 			sleepCtx(10*ms, "cancelled", 0, mode),
 			sleepCtx(0, "cancelled", 0, mode),
 			sleepCtx(10*ms, "cancelAt", 5*ms, mode),
@@ -219,6 +233,10 @@ func All() []Scenario {
 		ticker(4*ms, 1*ms, 3, "reset", 2*ms, 0, 0),
 		ticker(4*ms, 0, 3, "reset", 6*ms, 5*ms, 0),
 		ticker(2*ms, 0, 3, "reset", 8*ms, 1*ms, 0),
+		// Reset to a period smaller than the OLD jitter, and to jitter 0 from a large one
+		ticker(8*ms, 6*ms, 2, "reset", 2*ms, 0, 0),
+		ticker(8*ms, 6*ms, 2, "reset", 3*ms, 2*ms, 1),
+		extreme(),
 		ticker(4*ms, 1*ms, 3, "stop", 0, 0, 0),
 		ticker(4*ms, 3*ms, 2, "stop", 0, 0, 1),
 	)
